@@ -42,6 +42,12 @@ pub const MODULES: &[ModuleCfg] = &[
         may_use: &["LangId", "ExtType", "UExt", "TExt", "ExtMap", "Locale"],
         prelude: false,
     },
+    ModuleCfg {
+        name: "SrcSerde",
+        imports: &["UnicLocale.Gen.SrcParse", "UnicLocale.Model.Serde"],
+        may_use: &["LangId"],
+        prelude: false,
+    },
     // the proc macros: `Bytes → MacroOut T` (the expansion language `UL.MTok` and its evaluators are `Model/MacroSem.lean`)
     ModuleCfg {
         name: "SrcMacros",
@@ -82,6 +88,7 @@ const LIKELY: &str = "unic-langid-impl/src/likelysubtags/mod.rs";
 const LIPARSER: &str = "unic-langid-impl/src/parser/mod.rs";
 const LOCPARSER: &str = "unic-locale-impl/src/parser/mod.rs";
 const LOCLIB: &str = "unic-locale-impl/src/lib.rs";
+const SERDE: &str = "unic-langid-impl/src/serde.rs";
 const LIMACROS: &str = "unic-langid-macros-impl/src/lib.rs";
 const LOCMACROS: &str = "unic-locale-macros-impl/src/lib.rs";
 
@@ -232,6 +239,9 @@ pub const TARGETS: &[Target] = &[
     t!("LangId.minimize", "SrcLikely", LIB, Some("LanguageIdentifier"), "minimize", "Tables → LangId → Res (LangId × Bool)", "UL.LangId.minimize", &[], "Likely"),
     t!("LangId.direction", "SrcLikely", LIB, Some("LanguageIdentifier"), "character_direction", "Tables → Layout → LangId → Res LangId.Dir", "(UL.LangId.direction true)", &[], "Likely"),
     t!("LangId.directionNoLikely", "SrcLikely", LIB, Some("LanguageIdentifier"), "character_direction", "Layout → LangId → Res LangId.Dir", "(fun L x => UL.LangId.direction false ⟨#[], #[], #[], #[], #[], #[]⟩ L x)", &[], "Likely"),
+    // ---- serde.rs (`tr_serde.rs`): which string is serialised, what the visitor does with a string; serde's side is `Model/Serde.lean`
+    t!("Serde.serialize", "SrcSerde", SERDE, Some("Serialize for LanguageIdentifier"), "serialize", "LangId → Wire", "UL.Serde.serialize", &[], "Serde"),
+    t!("Serde.deserialize", "SrcSerde", SERDE, Some("Deserialize<'de> for LanguageIdentifier"), "deserialize", "Wire → Res LangId", "UL.Serde.deserialize", &[], "Serde"),
     // ---- the proc macros (`tr_macro.rs`): parse at build time, emit an expression, rustc evaluates it at the invocation
     t!("Macros.lang", "SrcMacros", LIMACROS, None, "lang", "Bytes → MacroOut (Option Bytes)", "UL.Macros.lang", &[], "Macros"),
     t!("Macros.script", "SrcMacros", LIMACROS, None, "script", "Bytes → MacroOut Bytes", "UL.Macros.script", &[], "Macros"),
@@ -266,6 +276,7 @@ pub const FILES: &[&str] = &[
     LOCLIB,
     LIMACROS,
     LOCMACROS,
+    SERDE,
     "unic-langid-impl/src/errors.rs",
     "unic-locale-impl/src/errors.rs",
     "unic-langid-impl/src/parser/errors.rs",
